@@ -67,9 +67,9 @@ def param_spec(chi=None, M=None):
         {
             "p": st.one_of(st.just(1.5), st.floats(1.0, 2.0)),
             "n": st.one_of(st.just(3.5), st.floats(2.0, 5.0)),
-            "lam": st.one_of(st.just(5.0), st.floats(0.0, 10.0)),
-            "M": M if M is not None else st.one_of(st.just(0.0), st.just(125.0), st.floats(0.0, 200.0)),
-            "chi": chi if chi is not None else st.one_of(st.just(0.0), st.just(0.3), st.floats(0.0, 0.9)),
+            "lam": st.one_of(st.just(5.0), gen.no_denormal(st.floats(0.0, 10.0))),
+            "M": M if M is not None else st.one_of(st.just(0.0), st.just(125.0), gen.no_denormal(st.floats(0.0, 200.0))),
+            "chi": chi if chi is not None else st.one_of(st.just(0.0), st.just(0.3), gen.no_denormal(st.floats(0.0, 0.9), 1e-6)),
         }
     )
 
